@@ -33,7 +33,7 @@ theorem region_marks_columns (text : List Char) (f start stop : Nat) (i : Nat) :
     obtain ⟨d, _, hd⟩ := List.mem_map.mp hc
     by_cases hbk : isBlank d = true
     · simp [hbk] at hd; subst hd
-      intro h; subst h; simp [isBlank, isWsChar] at hbk
+      intro h; subst h; simp [isBlank] at hbk
     · simp [hbk] at hd; subst hd; decide
   have hpad : (base ++ List.replicate (start - f - base.length) ' ').length = start - f := by
     simp; omega
@@ -63,6 +63,25 @@ theorem region_marks_columns (text : List Char) (f start stop : Nat) (i : Nat) :
       have : i - (start - f) < stop + 1 - start := by omega
       simp [this]
 
+
+/-- **C18 (`marker_cells`).** The marker line consists of spaces, tabs and markers only: no
+    character of the source line that could move the cursor (a carriage return of a CRLF file, a
+    form feed) reaches it. -/
+theorem marker_cells (text : List Char) (f start stop : Nat) :
+    ∀ c ∈ formatMarker text f start stop, c = ' ' ∨ c = '\t' ∨ c = '^' := by
+  intro c hc
+  unfold formatMarker at hc
+  simp only [] at hc
+  rcases List.mem_append.mp hc with h | h
+  · rcases List.mem_append.mp h with h | h
+    · obtain ⟨d, _, hd⟩ := List.mem_map.mp h
+      by_cases hb : isBlank d = true
+      · simp [hb] at hd; subst hd
+        right; left
+        simpa [isBlank] using hb
+      · simp [hb] at hd; subst hd; left; rfl
+    · left; exact List.eq_of_mem_replicate h
+  · right; right; exact List.eq_of_mem_replicate h
 
 /-- **C18 (`excerpt_aligned`).** In the three-line excerpt the gutter bar stands in the same
     column of every line, and the source text and the marker line start in the same column: the
